@@ -134,7 +134,7 @@ Record Inv (W0 : Z) (s : st) : Prop := mkInv {
 }.
 
 Ltac prj := cbn [ow omp obox dwire awire inw thr sofar comb bout berr abox g_res elog g_adjin g_grant
-                 g_cons g_disc g_lost fst snd] in *.
+                 g_cons g_disc g_lost eof fst snd] in *.
 
 Lemma credit_spec s n sf ab gr :
   0 <= sofar s <= thr s -> 0 <= n -> Forall (fun a => 0 < a) (abox s) ->
@@ -156,8 +156,9 @@ Qed.
 
 Lemma step_inv W0 s o : Inv W0 s -> op_wf o -> Inv W0 (fst (step s o)).
 Proof.
-  intros HI Hwf. destruct HI. destruct o as [k n|i| |err n|i| ]; unfold step.
+  intros HI Hwf. destruct HI. destruct o as [k n|i| |err n|i| |b| ]; unfold step.
   - (* OSend *)
+    destruct (eof s); [constructor; assumption|].
     destruct (send_must_wait (ow s)) eqn:Hw; [constructor; assumption|].
     pose proof (send_must_wait_spec _ i_ow0 Hw) as Hpos.
     destruct (send_alloc (ow s) (omp s) n) as [size ow'] eqn:Ha.
@@ -212,13 +213,17 @@ Proof.
     rewrite sum_cons in i_adj0. inversion i_awire0 as [|? ? Ha Hr]; subst.
     pose proof (window_adjust_spec (ow s) a) as Hwa.
     constructor; prj; try assumption; lia.
+  - (* OCombine *)
+    constructor; prj; try assumption; destruct (combine_moves b (comb s)); lia.
+  - (* OShutW *)
+    constructor; prj; assumption.
 Qed.
 
 Lemma step_const s o : omp (fst (step s o)) = omp s /\ thr (fst (step s o)) = thr s /\
-                       inw (fst (step s o)) = inw s /\ comb (fst (step s o)) = comb s.
+                       inw (fst (step s o)) = inw s.
 Proof.
-  destruct o as [k n|i| |err n|i| ]; unfold step.
-  - destruct (send_must_wait (ow s)); [auto|]. destruct (send_alloc _ _ _). destruct (send_nothing _); auto.
+  destruct o as [k n|i| |err n|i| |b| ]; unfold step; try (cbn; auto; fail).
+  - destruct (eof s); [auto|]. destruct (send_must_wait (ow s)); [auto|]. destruct (send_alloc _ _ _). destruct (send_nothing _); auto.
   - destruct (nth_error _ _); auto.
   - destruct (dwire s) as [|[l|c l] r]; auto.
     destruct (ext_discarded c); [destruct ext_discard_credits; [destruct (credit s l) as [[? ?] ?]|]|destruct (comb s)]; auto.
@@ -234,10 +239,10 @@ Proof.
 Qed.
 
 Lemma run_const ops : forall s, omp (run s ops) = omp s /\ thr (run s ops) = thr s /\
-                                inw (run s ops) = inw s /\ comb (run s ops) = comb s.
+                                inw (run s ops) = inw s.
 Proof.
   induction ops as [|o r IH]; intros s; [auto|]. cbn [run].
-  destruct (IH (fst (step s o))) as (a & b & c & d). destruct (step_const s o) as (a' & b' & c' & d').
+  destruct (IH (fst (step s o))) as (a & b & c). destruct (step_const s o) as (a' & b' & c').
   repeat split; congruence.
 Qed.
 
